@@ -96,6 +96,10 @@ add("C15", "extra-column-front", {"spec": copy.deepcopy(sp), "transforms": [{"op
 sp = spec(start="1990/05/01", end="1990/10/30", irr={"method": 3, "kwargs": {}, "schedule": [["1990/06/01", 20], ["1990/07/01", 30]]})
 add("C11", "schedule-consumed", {"spec": sp, "enumerate": False, "history": [{"op": "run", "model": "new", "how": "till"}, {"op": "run", "model": "new", "how": "till"}]}, "C11:raises-on-reuse", "8ff9630")
 add("C11", "schedule-consumed-after-abandon", {"spec": copy.deepcopy(sp), "enumerate": False, "history": [{"op": "abandon", "model": "new", "steps": 1}, {"op": "run", "model": "same", "how": "till"}]}, "C11:raises-on-reuse", "8ff9630")
+# --- C20: curve-number percentage without its flag
+sp = spec(start="1990/05/01", end="1990/10/30", soil={"type": "Clay", "kwargs": {}, "layers": None})
+sp["weather"] = wx(5, sp["start"], sp["end"], "tropical")
+add("C20", "cn-pct-without-flag", {"spec": sp, "toggles": [{"t": "cnpct_without_flag", "which": "field", "args": {"mulch_pct": 50, "f_mulch": 0.5, "z_bund": 0.1, "bund_water": 0, "pct": 20}}]}, "C20:not-inert", "f96ce68")
 
 
 def main():
